@@ -42,7 +42,7 @@ class QasmExporter(QCircuitExporter):
                 continue
 
             qbs = list(map(lambda gq: self._qubit_name(_selfqc, gq), ws))
-            if p:
+            if p is not None:
                 gate_qasm += f'\t{g.__name__.lower()}({p:.2f}) {" ".join(qbs)}\n'
             else:
                 gate_qasm += f'\t{g.__name__.lower()} {" ".join(qbs)}\n'
@@ -73,7 +73,7 @@ class QasmExporter(QCircuitExporter):
                 continue
 
             qbs = list(map(lambda gq: self._qubit_name(_selfqc, gq), ws))
-            if p:
+            if p is not None:
                 gate_qasm += f'\t{g.__name__.lower()}({p:.2f}) {" ".join(qbs)}\n'
             else:
                 gate_qasm += f'\t{g.__name__.lower()} {" ".join(qbs)}\n'
